@@ -4697,6 +4697,10 @@ class ResponseFuture(object):
         self._event.clear()
         self._final_result = _NOT_SET
         self._final_exception = None
+        # the timer of the previous page was cancelled but is still referenced, and
+        # _start_time still refers to the first page: give this fetch its own timeout
+        self._timer = None
+        self._start_time = time.time()
         self._start_timer()
         self.send_request()
 
